@@ -390,6 +390,19 @@ package writer
 //@     assert [raw-bytes-stored-only-without-escapes] forall(k, 0, len(value), value[k] != 92)
 //@ end
 
+// C01 (an accepted event comes back with exactly the values that were sent): a
+// string column value is stored as [type][2-byte length][bytes] and written to
+// the column with the length taken from that header, so the length in the
+// header has to be the length of the value: a value that does not fit two
+// bytes is refused (the event fails), never cut to len mod 65536.
+//@ func parseSingleString
+//@   props C01 C16
+//@   assumecalleerequires
+//@   site call utils.Uint16ToBytesLittleEndianInplace #1:
+//@     assert [the-length-in-the-header-is-the-length-of-the-value] int(arg0) == len(valBytes)
+//@   ensures [timestamp-column-is-not-stored-twice] implies(key == old(*tsKey), ple.numCols == old(ple.numCols))
+//@ end
+
 // C01 (the value returned is the value sent): a JSON string is stored as the
 // bytes between its quotes only when those bytes contain no escape sequence;
 // any backslash (at any position, the first byte included) sends the value
